@@ -224,7 +224,17 @@ fn gen_c13(run_seed: u64, tier: Tier) -> (Scenario, &'static str) {
     let big_index = reqs.len();
     // the request around the limit
     let key = keys[rng.usize(keys.len())].clone();
-    let opcode = *rng.pick(&[op::SET, op::SET, op::SETQ, op::ADD, op::REPLACE, op::APPEND, op::PREPENDQ, op::GET, op::GETQ, op::DELETE, op::INCR, op::NOOP, op::FLUSH, op::TOUCH, op::VERSION, op::QUIT]);
+    // "for every opcode": half of the runs take any opcode of the protocol table
+    // (loud and quiet forms, quit/quitq, stat, the unimplemented ones), the others a store-heavy mix
+    let opcode = if rng.chance(1, 2) {
+        let mut o = rng.below(op::MAX as u64) as u8;
+        if o == 0x1b {
+            o = op::QUITQ;
+        }
+        o
+    } else {
+        *rng.pick(&[op::SET, op::SET, op::SETQ, op::ADD, op::REPLACE, op::APPEND, op::PREPENDQ, op::GET, op::GETQ, op::DELETE, op::INCR, op::NOOP, op::FLUSH, op::TOUCH, op::VERSION, op::QUIT, op::QUITQ])
+    };
     let info = crate::wire::op_info(opcode);
     let extras = match info.kind {
         crate::wire::Kind::Set | crate::wire::Kind::Add | crate::wire::Kind::Replace => 8usize,
